@@ -104,8 +104,11 @@ where
 
         // Rotate any desugared modifiers to the end of the list
         let modifiers = ["inv", "omit_fwd", "omit_inv"];
-        while modifiers.contains(&elements[0]) {
+        // (at most once per element: there may be nothing but modifiers)
+        let mut rotations = 0;
+        while rotations < elements.len() && modifiers.contains(&elements[0]) {
             elements.rotate_left(1);
+            rotations += 1;
         }
 
         for element in elements {
